@@ -496,11 +496,24 @@ Theorem from_format_backslash_escape_refuted : roundtrip false [101;110] sample_
 Proof. exact backslash_escape_roundtrip_fails. Qed.
 Print Assumptions from_format_backslash_escape_refuted.
 
-(* KNOWN FINDING rs-ordinal-month-end: 'YYYY-DDDD' of 2020-02-29 round-trips with the Python parser and raises ParserError with the Rust one *)
-Theorem from_format_ordinal_month_end_rust_refuted : roundtrip false [101;110] leap_day doy_fmt = Ok (2020, 2, 29, 0, 0, 0, 0, None)
-  /\ roundtrip true [101;110] leap_day doy_fmt = Raise E_ParserError.
+(* finding rs-ordinal-month-end (REPAIRED: rust/src/parsing.rs ordinal_to_ymd compares with `<=`): the day-of-year step of
+   _check_parsed — pendulum.parse('YYYY-DDD') — yields the month and day of that day of the year with the compiled parser too,
+   for every year and every existing day, the last day of each month included ... *)
+Theorem from_format_day_of_year_rust : forall y doy, 1 <= doy <= days_in_year y -> doy_to_md_rs y doy = Ok (md_of_yday y doy).
+Proof. exact doy_to_md_rs_spec. Qed.
+Print Assumptions from_format_day_of_year_rust.
+
+(* ... hence the model of Formatter.parse no longer depends on the parser backend at all ... *)
+Theorem from_format_backend_independent : forall zones lname now s fmt,
+  parse true zones lname now s fmt = parse false zones lname now s fmt.
+Proof. exact parse_backend_independent. Qed.
+Print Assumptions from_format_backend_independent.
+
+(* ... and the former witness, 'YYYY-DDDD' of 2020-02-29 (day 60), round-trips with both backends *)
+Theorem from_format_ordinal_month_end_both_backends : roundtrip false [101;110] leap_day doy_fmt = Ok (2020, 2, 29, 0, 0, 0, 0, None)
+  /\ roundtrip true [101;110] leap_day doy_fmt = Ok (2020, 2, 29, 0, 0, 0, 0, None).
 Proof. exact ordinal_month_end_backends. Qed.
-Print Assumptions from_format_ordinal_month_end_rust_refuted.
+Print Assumptions from_format_ordinal_month_end_both_backends.
 
 (* the methods modelled by hand are the ones this development was written against (ast fingerprints from the generator) *)
 Theorem hand_modelled_sources_pinned : List.length source_fingerprints = 16%nat.
